@@ -56,6 +56,9 @@ var c12Probes = []settingProbe{
 	{Key: "enum:unknown", Conv: "PEnumUnknown", Values: []string{"@ignore", "@panic"}, Good: "*", Marker: map[string]string{"@ignore": "// ignored", "@panic": "panic(fmt.Sprintf("}},
 	{Key: "wrapErrorsUsing", Conv: "PWrapErrorsUsing", Values: []string{"example.com/c12/w1", "example.com/c12/w2"}, Marker: map[string]string{"example.com/c12/w1": "w1.Wrap(", "example.com/c12/w2": "w2.Wrap("}},
 	{Key: "arg:context:regex", Conv: "PContextRegex", Values: []string{"^ctx", "^nomatch"}, Good: "^ctx"},
+	// the functions named by the methods' map ... | FUNC lines are classified with the value in effect for that method
+	{Key: "arg:context:regex", Conv: "PContextRegexFunc", Values: []string{"^ctx", "^nomatch"}, Good: "^ctx"},
+	{Key: "arg:context:regex", Conv: "PContextRegexDefault", Values: []string{"^ctx", "^nomatch"}, Good: "^ctx"},
 }
 
 // good says whether a probe method generates with the effective value eff.
@@ -199,7 +202,13 @@ func c12Run(l *vh.Loaded, conv string, cli, convLines, m1, m2 []string) c12Resul
 		rc.Converter.Lines = append(append([]string{}, convLines...), rc.Converter.Lines...)
 		for name, add := range map[string][]string{"M1": m1, "M2": m2} {
 			m := rc.Methods[name]
-			m.Lines = append(append([]string{}, m.Lines...), add...)
+			if conv == "PContextRegexFunc" || conv == "PContextRegexDefault" {
+				// lines apply in source order: the functions of the methods' map lines are
+				// classified with what is known when the map line is read
+				m.Lines = append(append([]string{}, add...), m.Lines...)
+			} else {
+				m.Lines = append(append([]string{}, m.Lines...), add...)
+			}
 			rc.Methods[name] = m
 		}
 	})[0]
@@ -332,10 +341,24 @@ func c12CLI(s *vh.Session, pl placement) string {
 	if l := p.line(pl.Conv); l != "" {
 		block = strings.Replace(block, "// goverter:converter\n", "// goverter:converter\n// goverter:"+l+"\n", 1)
 	}
-	if l := p.line(pl.Method); l != "" {
-		block = strings.Replace(block, "\tM1(", "\t// goverter:"+l+"\n\tM1(", 1)
+	addMethodLine := func(method, l string) {
+		at := strings.Index(block, "\t"+method+"(")
+		if p.Conv == "PContextRegexFunc" || p.Conv == "PContextRegexDefault" {
+			// in front of the method's existing doc lines (see c12Run)
+			for {
+				prev := strings.LastIndex(block[:at-1], "\n") + 1
+				if !strings.HasPrefix(block[prev:], "\t//") {
+					break
+				}
+				at = prev
+			}
+		}
+		block = block[:at] + "\t// goverter:" + l + "\n" + block[at:]
 	}
-	block = strings.Replace(block, "\tM2(", "\t// goverter:"+p.line(p.explicit(sibEff))+"\n\tM2(", 1)
+	if l := p.line(pl.Method); l != "" {
+		addMethodLine("M1", l)
+	}
+	addMethodLine("M2", p.line(p.explicit(sibEff)))
 	if err := os.WriteFile(filepath.Join(dir, "p/conv.go"), []byte("package p\n\n"+block), 0o644); err != nil {
 		return "INFRA: " + err.Error()
 	}
@@ -488,6 +511,24 @@ func TestC12(t *testing.T) {
 		ra := c12Run(l, p.Conv, nil, nil, lines(p.line(a)), lines(p.line(goodVal)))
 		rb := c12Run(l, p.Conv, nil, nil, lines(p.line(b)), lines(p.line(goodVal)))
 		if ra.OK == rb.OK && ra.Text == rb.Text {
+			// either the value written on the method is not in effect (a violation, reported through
+			// the placement that shows it) or the probe is vacuous (a defect of this harness)
+			reported := false
+			opts := p.options()
+			for _, cli := range opts {
+				for _, cv := range opts {
+					for _, m := range opts {
+						pl := placement{Probe: p.Key, PConv: p.Conv, CLI: cli, Conv: cv, Method: m}
+						if msg := c12EvalPlacement(s, l, pl); msg != "" && !reported {
+							s.FailT(t, "placement", pl, msg)
+							reported = true
+						}
+					}
+				}
+			}
+			if reported {
+				continue
+			}
 			s.Infra("probe of " + p.Key + " cannot tell its values apart")
 			t.Fatalf("INFRA: probe of %s cannot tell its values apart (%v %v)\n%s\n%s", p.Key, ra.OK, rb.OK, ra.Err, rb.Err)
 		}
